@@ -91,6 +91,16 @@ def gen_v2():
             head = V2_HEADERS[k % len(V2_HEADERS)]
             out.append((f"gen2/n{c1}{c2}", render(V2_HELPER + head + ind(body))))
             k += 1
+    # compound as the second body (`else` / `or when` directly followed by a nested compound);
+    # programs of this family that the parser rejects unmodified are skipped and listed
+    for c1 in range(len(V2_COMPOUND)):
+        for c2 in range(len(V2_COMPOUND)):
+            i = (c1 * len(V2_COMPOUND) + c2 + 2) % n
+            inner = V2_COMPOUND[c2](V2_SIMPLE[i], V2_SIMPLE[(i + 4) % n], "  ")
+            body = V2_COMPOUND[c1](V2_SIMPLE[(i + 9) % n], inner, "  ")
+            head = V2_HEADERS[k % len(V2_HEADERS)]
+            out.append((f"gen2/m{c1}{c2}", render(V2_HELPER + head + ind(body))))
+            k += 1
     # tab-indented program (PythonIndenter: tab = 8 columns); excluded from scaling
     out.append(("gen2/tabs", "flow t\n\tmatch A()\n\tif $x\n\t\tsend B()\n\telse\n\t\tsend C()\n"))
     # two flows separated by comments / blank lines, file without final newline
@@ -120,6 +130,8 @@ V1_SIMPLE = [
     ['$a = "text"', "bot $a"],
     ["user ask something or", "    user express thanks"],
     ["# llm: be nice", "bot express greeting"],
+    ["bot express welcome", '  "Hello there!"', '  "Hi!"'],
+    ["when user ask a or user ask b", "  bot c"],
 ]
 
 V1_COMPOUND = [
@@ -175,6 +187,14 @@ def gen_v1():
             body = ["user ask x"] + V1_COMPOUND[c1](inner, V1_SIMPLE[(i + 7) % n], "  ")
             head = V1_HEADERS[k % len(V1_HEADERS)]
             out.append((f"gen1/n{c1}{c2}", render(head + ind(body))))
+            k += 1
+    for c1 in range(len(V1_COMPOUND)):
+        for c2 in range(len(V1_COMPOUND)):
+            i = (c1 * len(V1_COMPOUND) + c2 + 2) % n
+            inner = V1_COMPOUND[c2](V1_SIMPLE[i], V1_SIMPLE[(i + 4) % n], "  ")
+            body = ["user ask x"] + V1_COMPOUND[c1](V1_SIMPLE[(i + 9) % n], inner, "  ")
+            head = V1_HEADERS[k % len(V1_HEADERS)]
+            out.append((f"gen1/m{c1}{c2}", render(head + ind(body))))
             k += 1
     out.append(("gen1/noeol", "define flow a\n  user x\n\n# between\n\ndefine flow b\n  user y\n  bot z"))
     out.append(("gen1/msgs", render(V1_MESSAGES)))
@@ -281,7 +301,7 @@ TOKENS = [
 # `define` is not handed to the 1.0 parser at all)
 CONTEXTS = {
     "2.x": ["", "flow a\n  "],
-    "1.0": ["", "define flow a\n  "],
+    "1.0": ["", "define flow a\n  user x\n  "],
 }
 
 
